@@ -1947,11 +1947,26 @@ static int64_t wrap_to_type(Type *ty, int64_t val) {
   return val;
 }
 
+// Converting a NaN or an out-of-range value to an integer is undefined
+// in C. Do not let the host compiler's choice leak into our output:
+// such a conversion yields the x86 "integer indefinite" value.
+static int64_t flonum_to_int64(long double val) {
+  if (val >= -0x1p63L && val < 0x1p63L)
+    return val;
+  return INT64_MIN;
+}
+
+static int64_t flonum_to_uint64(long double val) {
+  if (val > -1.0L && val < 0x1p64L)
+    return (uint64_t)val;
+  return INT64_MIN;
+}
+
 static int64_t eval2(Node *node, char ***label) {
   add_type(node);
 
   if (is_flonum(node->ty))
-    return eval_double(node);
+    return flonum_to_int64(eval_double(node));
 
   int64_t val = eval3(node, label);
   if (label && *label)
@@ -2048,7 +2063,7 @@ static int64_t eval3(Node *node, char ***label) {
     if (node->ty->kind == TY_BOOL && is_flonum(node->lhs->ty))
       return eval_double(node->lhs) != 0;
     if (is_flonum(node->lhs->ty) && node->ty->is_unsigned && node->ty->size == 8)
-      return (uint64_t)eval_double(node->lhs);
+      return flonum_to_uint64(eval_double(node->lhs));
     int64_t val = eval2(node->lhs, label);
     if (node->ty->kind == TY_BOOL && !(label && *label))
       return val != 0;
